@@ -16,6 +16,9 @@ Definition src_ext (h : heap) (r : loc) (s : src) : list loc :=
 Lemma nonleaky_ext h r s : leaky s = false -> src_ext h r s = [].
 Proof. destruct s; simpl; auto; discriminate. Qed.
 
+Ltac sp5 := split; [|split; [|split; [|split]]].
+Ltac sp6 := split; [|split; [|split; [|split; [|split]]]].
+
 Lemma eval_src_spec N h r s h1 v :
   eval_src h r s = Some (h1, v) -> wf h -> (N <= length h)%nat -> closed_above N h ->
   ext h h1 /\ (wf h1) /\ closed_above N h1 /\ closed_above (length h) h1 /\
@@ -25,8 +28,8 @@ Lemma eval_src_spec N h r s h1 v :
   end.
 Proof.
   intros E W L C. destruct s as [z|kd cells|p|a|a|p|a|x]; simpl in E.
-  - inversion E; subst. repeat split; auto using ext_refl, closed_above_len.
-  - inversion E; subst. repeat split.
+  - inversion E; subst. sp5; auto using ext_refl, closed_above_len.
+  - inversion E; subst. sp5.
     + apply ext_snoc.
     + apply wf_snoc; auto. intros l Hl. rewrite refs_scalars in Hl. destruct Hl.
     + apply closed_above_snoc; auto. intros l Hl. rewrite refs_scalars in Hl. destruct Hl.
@@ -35,18 +38,18 @@ Proof.
   - destruct (resolve h r p) as [l|] eqn:R; [|discriminate].
     destruct (deepcopy_new N _ _ _ _ E L W C) as (X & W1 & C1 & V1).
     destruct (deepcopy_fresh _ _ _ _ E W) as (_ & _ & C2 & V2).
-    repeat split; auto. destruct v; auto. simpl in V2. left; exact V2.
+    sp5; auto. destruct v as [z|l0]; [exact Logic.I | left; exact V2].
   - destruct (class_cell h r a) as [w|] eqn:R; [|discriminate].
     destruct (deepcopy_new N _ _ _ _ E L W C) as (X & W1 & C1 & V1).
     destruct (deepcopy_fresh _ _ _ _ E W) as (_ & _ & C2 & V2).
-    repeat split; auto. destruct v; auto. simpl in V2. left; exact V2.
+    sp5; auto. destruct v as [z|l0]; [exact Logic.I | left; exact V2].
   - destruct (class_cell h r a) as [[z|l]|] eqn:R; try discriminate.
-    inversion E; subst. repeat split; auto using ext_refl, closed_above_len.
+    inversion E; subst. sp5; auto using ext_refl, closed_above_len.
   - destruct (resolve h r p) as [l|] eqn:R; [|discriminate]. inversion E; subst.
-    repeat split; auto using ext_refl, closed_above_len. right; left. eapply resolve_reach; eauto.
+    sp5; auto using ext_refl, closed_above_len. right; left. eapply resolve_reach; eauto.
   - destruct (class_cell h r a) as [w|] eqn:R; [|discriminate]. inversion E; subst.
-    repeat split; auto using ext_refl, closed_above_len. destruct w; auto. right; right. simpl. rewrite R. simpl; auto.
-  - inversion E; subst. repeat split; auto using ext_refl, closed_above_len. right; right. simpl; auto.
+    sp5; auto using ext_refl, closed_above_len. destruct v as [z|l0]; [exact Logic.I|]. right; right. simpl. rewrite R. simpl; auto.
+  - inversion E; subst. sp5; auto using ext_refl, closed_above_len. right; right. simpl; auto.
 Qed.
 
 (* every action = evaluate the source, then replace ONE object reachable from the receiver *)
@@ -56,7 +59,7 @@ Lemma action_decompose h r a h' : run_action h r a = Some h' ->
      | Some s => eval_src h r s = Some (h1, v)
      | None => h1 = h /\ v = VS 0 end) /\
     reach h1 r lt /\ nth_error h1 lt = Some o /\ h' = upd lt o' h1 /\
-    (forall l, In l (refs o') -> In l (refs o) \/ In l (val_refs v)).
+    (forall l, In l (refs o') -> In l (refs o) \/ In l (val_refs v)) /\ okind o' = okind o.
 Proof.
   destruct a as [p k s|p s|p cells]; simpl.
   - destruct (eval_src h r s) as [[h1 v]|] eqn:E; [|discriminate].
@@ -64,14 +67,14 @@ Proof.
     destruct (nth_error h1 lt) as [o|] eqn:O; [|discriminate].
     destruct (positional (okind o) && _); [discriminate|].
     intros H; inversion H; subst. exists h1, v, lt, o, (mkObj (okind o) (cell_set k v (ocells o))).
-    repeat split; auto. eapply resolve_reach; eauto.
+    sp6; auto. eapply resolve_reach; eauto.
     intros l Hl. destruct o as [kd cs]; simpl in *. apply in_refs_cell_set in Hl. exact Hl.
   - destruct (eval_src h r s) as [[h1 v]|] eqn:E; [|discriminate].
     destruct (resolve h1 r p) as [lt|] eqn:R; [|discriminate].
     destruct (nth_error h1 lt) as [o|] eqn:O; [|discriminate].
     destruct (okind o) eqn:Kd; try discriminate.
     intros H; inversion H; subst. exists h1, v, lt, o, (mkObj KList (ocells o ++ [(Z.of_nat (length (ocells o)), v)])).
-    repeat split; auto. eapply resolve_reach; eauto.
+    sp6; auto; try (simpl; congruence). eapply resolve_reach; eauto.
     intros l Hl. rewrite refs_app, in_app_iff in Hl. destruct Hl as [Hl|Hl].
     + left. destruct o as [kd cs]; simpl in *. exact Hl.
     + right. rewrite refs_cons, in_app_iff in Hl. destruct Hl as [Hl|[]]. exact Hl.
@@ -79,7 +82,7 @@ Proof.
     destruct (nth_error h lt) as [o|] eqn:O; [|discriminate].
     destruct (positional (okind o)); [|discriminate].
     intros H; inversion H; subst. exists h, (VS 0), lt, o, (mkObj (okind o) (enum (scal cells))).
-    repeat split; auto. eapply resolve_reach; eauto.
+    sp6; auto. eapply resolve_reach; eauto.
     intros l Hl. rewrite refs_enum_scal in Hl. destruct Hl.
 Qed.
 
@@ -97,14 +100,15 @@ Theorem action_frame h r a h' :
   (forall l, reach h' r l -> reach h r l \/ (length h <= l)%nat).
 Proof.
   intros Run W R NL.
-  destruct (action_decompose _ _ _ _ Run) as (h1 & v & lt & o & o' & Src & Rlt & Olt & -> & Refs).
+  destruct (action_decompose _ _ _ _ Run) as (h1 & v & lt & o & o' & Src & Rlt & Olt & -> & Refs & _).
   assert (S : ext h h1 /\ wf h1 /\ closed_above (length h) h1 /\
               match v with VS _ => True | VR l => (length h <= l < length h1)%nat \/ reach h r l end).
   { unfold act_leaky in NL. destruct (act_src a) as [s|].
     - destruct (eval_src_spec 0 _ _ _ _ _ Src W) as (X & W1 & _ & C1 & V); try lia.
       { intros i o0 l0 _ _ _; lia. }
-      repeat split; auto. destruct v; auto. rewrite (nonleaky_ext _ _ _ NL) in V. simpl in V. tauto.
-    - destruct Src as [-> ->]. repeat split; auto using ext_refl, closed_above_len. }
+      split; [exact X|]. split; [exact W1|]. split; [exact C1|].
+      destruct v as [z|l0]; [exact Logic.I|]. rewrite (nonleaky_ext _ _ _ NL) in V. simpl in V. tauto.
+    - destruct Src as [-> ->]. split; [apply ext_refl|]. split; [exact W|]. split; [apply closed_above_len | exact Logic.I]. }
   destruct S as (X & W1 & C1 & V).
   assert (Rlt' : reach h r lt) by (apply (reach_ext_old h h1 r W R X); exact Rlt).
   assert (Llt : (lt < length h)%nat) by (eapply reach_lt; eauto).
@@ -188,17 +192,18 @@ Theorem action_above N h r a h' :
   wf h' /\ closed_above N h' /\ (length h <= length h')%nat /\ (forall l, (l < N)%nat -> nth_error h' l = nth_error h l).
 Proof.
   intros Run W C R AB.
-  destruct (action_decompose _ _ _ _ Run) as (h1 & v & lt & o & o' & Src & Rlt & Olt & -> & Refs).
+  destruct (action_decompose _ _ _ _ Run) as (h1 & v & lt & o & o' & Src & Rlt & Olt & -> & Refs & _).
   assert (S : ext h h1 /\ wf h1 /\ closed_above N h1 /\
               match v with VS _ => True | VR l => (N <= l < length h1)%nat end).
   { unfold act_above in AB. destruct (act_src a) as [s|].
     - destruct (eval_src_spec N _ _ _ _ _ Src W) as (X & W1 & C1 & _ & V); auto; try lia.
-      repeat split; auto. destruct v as [z|l]; auto. pose proof (ext_length _ _ X) as Lx.
+      split; [exact X|]. split; [exact W1|]. split; [exact C1|].
+      destruct v as [z|l]; [exact Logic.I|]. pose proof (ext_length _ _ X) as Lx.
       destruct V as [V|[V|V]].
       + lia.
       + split; [eapply closed_above_reach; eauto; lia|]. assert (l < length h)%nat by (eapply reach_lt; eauto; lia). lia.
       + destruct s; simpl in *; try tauto. destruct V as [<-|[]]. lia.
-    - destruct Src as [-> ->]. repeat split; auto using ext_refl. }
+    - destruct Src as [-> ->]. split; [apply ext_refl|]. split; [exact W|]. split; [exact C | exact Logic.I]. }
   destruct S as (X & W1 & C1 & V).
   assert (Nlt : (N <= lt)%nat) by (eapply closed_above_reach; eauto; lia).
   assert (Vb : forall l, In l (val_refs v) -> (N <= l < length h1)%nat).
@@ -225,4 +230,41 @@ Proof.
       destruct (IH _ _ _ _ Run W1 C1 ltac:(lia) ABr') as (W2 & C2 & L2 & U2).
       repeat split; auto; try lia. intros l Ll. rewrite U2 by auto. auto.
     + inversion Run; subst. repeat split; auto.
+Qed.
+
+(* actions never change the kind (class, dtype) of an existing object and never remove one *)
+Lemma action_kinds h r a h' :
+  run_action h r a = Some h' -> wf h ->
+  forall l o, nth_error h l = Some o -> exists o', nth_error h' l = Some o' /\ okind o' = okind o.
+Proof.
+  intros Run W l o Hl.
+  destruct (action_decompose _ _ _ _ Run) as (h1 & v & lt & o0 & o0' & Src & Rlt & Olt & -> & _ & Kd).
+  assert (X : ext h h1).
+  { destruct (act_src a) as [s|].
+    - destruct (eval_src_spec 0 _ _ _ _ _ Src W) as (X & _); auto; try lia. intros i o1 l1 _ _ _; lia.
+    - destruct Src as [-> _]. apply ext_refl. }
+  pose proof (nth_error_lt _ _ _ Hl) as Ll.
+  rewrite nth_error_upd_same. destruct (Nat.eqb lt l) eqn:E.
+  - apply Nat.eqb_eq in E; subst lt. rewrite (ext_nth _ _ _ X Ll) in Olt. rewrite Hl in Olt. inversion Olt; subst o0.
+    pose proof (ext_length _ _ X) as Lx.
+    destruct (Nat.ltb l (length h1)) eqn:Lt; [|apply Nat.ltb_ge in Lt; lia]. eauto.
+  - rewrite (ext_nth _ _ _ X Ll). eauto.
+Qed.
+
+Lemma actions_kinds : forall acts h r h' ok,
+  run_actions h r acts = (h', ok) -> wf h -> (r < length h)%nat -> Forall (act_above 0 h) acts ->
+  forall l o, nth_error h l = Some o -> exists o', nth_error h' l = Some o' /\ okind o' = okind o.
+Proof.
+  induction acts as [|a rest IH]; intros h r h' ok Run W R AB l o Hl; simpl in Run.
+  - inversion Run; subst. eauto.
+  - inversion AB as [|? ? ABa ABr]; subst.
+    destruct (run_action h r a) as [h1|] eqn:E.
+    + destruct (action_kinds _ _ _ _ E W l o Hl) as (o1 & H1 & K1).
+      assert (C0 : closed_above 0 h) by (intros i o2 l2 _ _ _; lia).
+      destruct (action_above 0 _ _ _ _ E W C0 ltac:(lia) ABa) as (W1 & _ & L1 & _).
+      assert (ABr' : Forall (act_above 0 h1) rest).
+      { eapply Forall_impl; [|exact ABr]. intros a0 Ha0. eapply act_above_mono; eauto. }
+      destruct (IH _ _ _ _ Run W1 ltac:(lia) ABr' l o1 H1) as (o2 & H2 & K2).
+      exists o2. split; auto. congruence.
+    + inversion Run; subst. eauto.
 Qed.
